@@ -79,6 +79,13 @@ class Resolver:
                     r = self.repo.resolve_name(fn.mod, d)
                     if isinstance(r, Cls):
                         out[k] = r
+            elif isinstance(v, ast.Attribute):
+                # local alias of a typed receiver: group = self.decay_group
+                c = self._table_cls(v.attr)
+                if c is not None:
+                    out[k] = c
+            elif isinstance(v, ast.Name) and v.id == "self" and fn.cls is not None:
+                out[k] = fn.cls
         self._local_types[fn] = out
         return out
 
